@@ -131,8 +131,15 @@ func c09Word(cfg muxCfg, word string) []wunit {
 					}
 				case "sparse":
 					u.RA = i%7 == 0
+				case "params-nonra":
+					// the new parameter sets arrive with an ordinary frame (i == 9); the key frames after the first one
+					// do not repeat them in-band
+					u.RA = i%4 == 0
+					if i == 9 {
+						u.Params = 2
+					}
 				}
-				if u.RA && u.Params == 0 {
+				if u.RA && u.Params == 0 && (word != "params-nonra" || i == 0) {
 					u.Params = 1
 				}
 				if t.Kind == "h264b" {
@@ -403,7 +410,23 @@ func c09Harness(sc c09Scen) vsched.Harness {
 						case *codecs.VP9:
 							c.Width, c.Height, c.Profile, c.BitDepth, c.ChromaSubsampling, c.ColorRange = ps.width, ps.height, uint8(ps.profile), uint8(ps.bitDepth), uint8(ps.chroma), ps.colorRange
 						}
-						if c09ParamsEqual(tr, ref) && (st.sc.Word == "params" || p == 0) {
+						// which set may the client report? "params": set 1 becomes current at 2.5 s (complete segment at ~3.5 s), set 0
+						// again at 6 s; "params-nonra": set 1 is announced at 2.25 s, active from the key frame at 3 s, the first
+						// segment encoded with it complete at 4 s. A client attached at 5 s or later must have it.
+						allowed := p == 0
+						switch st.sc.Word {
+						case "params":
+							allowed = true
+							if st.sc.AttachMS >= 5000 && st.sc.AttachMS < 6000 {
+								allowed = p == 1
+							}
+						case "params-nonra":
+							allowed = true
+							if st.sc.AttachMS >= 5000 {
+								allowed = p == 1
+							}
+						}
+						if c09ParamsEqual(tr, ref) && allowed {
 							okP = true
 						}
 					}
@@ -641,7 +664,10 @@ func c09Scens(tier string) []c09Scen {
 	}
 	for ci, cfg := range cfgs {
 		for _, entry := range []string{"index", "media"} {
-			for _, word := range []string{"regular", "params", "sparse"} {
+			for _, word := range []string{"regular", "params", "sparse", "params-nonra"} {
+				if word == "params-nonra" && !(len(cfg.Tracks) == 1 && cfg.Tracks[0].Kind == "h264" && cfg.Variant != "mpegts") {
+					continue
+				}
 				hasVideo := cfg.Tracks[cfg.leading()].video()
 				if !hasVideo && word != "regular" {
 					continue
